@@ -48,19 +48,25 @@ def le(model, y, tol):
 # ----------------------------------------------------------------------------- capture
 
 def capture_derivs(amp, data, var):
-    """per-event value, gradient and Hessian of the amplitude alone (TF autodiff = oracle)"""
+    """per-event value, gradient and Hessian of the amplitude ALONE: nested tf.GradientTape with one-hot
+    output gradients (TF autodiff = the oracle of C07; never the likelihood code)"""
     import tensorflow as tf
     K = len(var)
     with tf.GradientTape(persistent=True) as t2:
         with tf.GradientTape(persistent=True) as t1:
             f = amp(data)
-        J = [t1.jacobian(f, v, unconnected_gradients="zero", experimental_use_pfor=False) for v in var]
-    H = [[t2.jacobian(J[k], var[l], unconnected_gradients="zero", experimental_use_pfor=False) for l in range(K)] for k in range(K)]
+        N = int(f.shape[0])
+        eye = tf.eye(N, dtype=f.dtype)
+        Js = [t1.gradient(f, var, output_gradients=eye[i], unconnected_gradients="zero") for i in range(N)]
+    J = np.array([[float(Js[i][k]) for i in range(N)] for k in range(K)])
+    H = np.zeros((K, K, N))
+    for i in range(N):
+        for k in range(K):
+            row = t2.gradient(Js[i][k], var, unconnected_gradients="zero")
+            for l in range(K):
+                H[k][l][i] = float(row[l])
     del t1, t2
-    f = np.array(f, dtype=np.float64)
-    J = np.array([np.array(j, dtype=np.float64).reshape(-1) for j in J])
-    H = np.array([[np.array(h, dtype=np.float64).reshape(-1) for h in row] for row in H])
-    return f, J, H
+    return np.array(f, dtype=np.float64), J, H
 
 
 def fd_check(amp, data, vm, var_names, J, h=1e-4):
@@ -440,6 +446,7 @@ def _worker(args):
         pass
     sid, m, ngroup, gauss, opts = item
     acc = Acc(d, tier)
+    acc.sizes = (7, 12, 2, 5, 8, 13) if tier == "quick" else (8, 17, 3, 6, 10, 19)
     srnd = random.Random(sseed)
     t0 = time.time()
     res = {"item": item, "cases": [], "records": [], "error": None}
